@@ -1078,7 +1078,7 @@ func repeatMatcher(n *Node, m matcher) matcher {
 }
 
 // DefaultStepLimit bounds the work of one Test call (deterministic, not a clock).
-const DefaultStepLimit = 500_000
+const DefaultStepLimit = 200_000
 
 // Test is `new RegExp(src, "u").test(input)`: does the pattern match at some
 // start index. decided=false means the step budget was exhausted.
